@@ -85,11 +85,30 @@ def s1_selector(F, R, roles, h12, h10):
             continue
         R.count('selector_sites', 1)
         bad = None
+        # a private helper may receive the flag as a bool parameter: accepted when every call site passes the flag field
+        flag_params = set()
+        if not b.get('pub'):
+            fn_ = sg.entry_fn
+            for k_ in range(1, fn_['arg_count'] + 1):
+                if fn_['locals'][k_]['ty'] != 'bool':
+                    continue
+                sites_ok, nsites = True, 0
+                for cb in F.bodies.values():
+                    if not F.handwritten(cb) or not any(bl['term']['k'] == 'call' and bl['term'].get('fn') == b['id'] for bl in cb['blocks']):
+                        continue
+                    sgc = supergraph(F, cb['id'], tag='flat', max_depth=0)
+                    for cn in sgc.calls(lambda d: d.get('fn') == b['id']):
+                        nsites += 1
+                        a_ = strip_conv(sgc.sym.operand(cn.id, cn.d['args'][k_ - 1]))
+                        if not (a_[0] in ('load', 'load0') and a_[1][2] and a_[1][2][-1][0] == 'f' and 'legacy' in a_[1][2][-1][1]):
+                            sites_ok = False
+                if nsites and sites_ok:
+                    flag_params.add(k_)
         for p in paths:
             flag = None
             for disc, (kind, vals), _ in p.conds:
                 d = disc
-                if d[0] == 'load0' and d[1][2] and d[1][2][-1][0] == 'f' and 'legacy' in d[1][2][-1][1]:
+                if (d[0] == 'load0' and d[1][2] and d[1][2][-1][0] == 'f' and 'legacy' in d[1][2][-1][1]) or (d[0] == 'param' and d[1] in flag_params):
                     flag = (kind == 'notin' and 0 in vals) or (kind == 'in' and vals == (1,))
             used = set()
             for disc, _, _ in p.conds:
